@@ -100,6 +100,9 @@ def expected(sc, ld):
     """(delivered values, kind of propagated exception or None, position)."""
     out = []
     key = sc.get('key')
+    itf = (sc.get('faults') or {}).get('iter')
+    if itf:
+        return [], itf, 0
     for i in range(sc['n']):
         f = fault_at(sc, i)
         if f is not None:
@@ -169,7 +172,34 @@ def make_body(sc, e, raised_objs):
             for i in range(n):
                 yield fn(src_fn(i))
         catch = catch_arg(sc.get('catch'), ld)
-        if entry == 'stp':
+        iter_fault = (sc.get('faults') or {}).get('iter')
+        if iter_fault:
+            # the input fails when iter() is called on it, before any example
+            class BadIterable(ld.Dataset):
+                def __iter__(self, with_key=False):
+                    ev('iter_called')
+                    exc = exc_for(iter_fault, ld)(('iter', 0))
+                    raised_objs.append(exc)
+                    raise exc
+
+                def __len__(self):
+                    return n
+
+                def copy(self, freeze=False):
+                    return self
+
+                indexable = False
+                ordered = True
+            if entry == 'stp':
+                it = pu.single_thread_prefetch(BadIterable(), b)
+            elif entry == 'lpm':
+                it = pu.lazy_parallel_map(fn, BadIterable(), buffer_size=b,
+                                          max_workers=w, backend='t')
+            elif entry == 'pf1':
+                it = iter(BadIterable().map(fn).prefetch(1, b))
+            else:
+                it = iter(BadIterable().map(fn, num_workers=w, buffer_size=b))
+        elif entry == 'stp':
             it = pu.single_thread_prefetch(fgen(), b)
         elif entry == 'lpm':
             it = pu.lazy_parallel_map(fn, gen(), buffer_size=b, max_workers=w,
@@ -365,7 +395,9 @@ def judge_errors(sc, r, res, ld):
         res.violation('hang-on-error', case, {'blocked': r['deadlock']}, sig=sig)
         return False
     want, kind, pos = expected(sc, ld)
-    where = fault_at(sc, pos)[0] if pos is not None else None
+    where = None
+    if pos is not None:
+        where = 'iter' if (sc.get('faults') or {}).get('iter') else fault_at(sc, pos)[0]
     sig['where'] = where
     sig['exc'] = kind
     got = r['delivered']
